@@ -442,6 +442,7 @@ def check_valid_cpd(case, out):
         out.fail(f"is_valid_cpd:{'rejects_valid' if want else 'accepts_invalid'}", f"delta={case['delta']} table={table}")
 
 
+THOROUGH_SCALE = 6  # thorough-tier example counts are n["thorough"] x this (one thorough run then takes roughly 5-10 minutes on 16 cores)
 SUBCHECKS = [
     Sub("cpd_ops", check_cpd, strategy=lambda tier: cpd_case(), n={"quick": 400, "thorough": 6000},
         shards={"quick": 8, "thorough": 16}, fuzz={"thorough": (2, 300)}, doc="TabularCPD construction and every transformation vs the column-meaning reference, state names, immutability"),
